@@ -12,7 +12,7 @@ RECS = ["R-N500", "RX-A2A", "RX-A6A", "RX-A810", "RX-V1067", "RX-V2067", "RX-V47
 def jobs(rng, thorough):
     T = core.tables()
     out = []
-    for _ in range(6000 if thorough else 500):
+    for _ in range(50000 if thorough else 500):
         out.append((gen.conn_check(rng), rng.randrange(10 ** 9), rng.choice([0, 0, 3])))
     return out
 
